@@ -3,6 +3,7 @@
     MPO.check_if_identity            the verdict expression of the equivalence checker          (C04)
     AnalogSimParams.__init__         self.times = ...                                          (C15)
     has_scheduled_jump / apply_scheduled_jumps   the time-matching test of scheduled jumps     (C14)
+    create_local_noise_model         which processes follow a gate on (first_site, last_site)  (C03; nat/list model, not floats)
 Proofs/SmallGenP.v proves each generated definition equal to the hand-written model (Verdict.v, Grid.v), so the theorems of
 those properties are re-checked against what the source says now: a changed constant, comparison or default (>= vs >, 1e-9,
 rtol, a float stop in arange, int() instead of round()) breaks the equality.  Anything outside the subset fails closed.
@@ -166,9 +167,59 @@ def regenerate():
         raise Unsupported("jump test is not boolean")
     out.append(f"(* scheduled_jumps.py apply_scheduled_jumps:  if {ast.unparse(loops[0].body[0].test)}: apply *)\n"
                f"Definition jump_applied_src (jump_time time dt : float) : bool :=\n  {txt}.\n")
+    # ---- C03 local noise model of a gate ----
+    t = ast.parse((REPO / "digital/digital_tjm.py").read_text())
+    fn = func(t, "create_local_noise_model")
+    body = [st for st in fn.body if not (isinstance(st, ast.Expr) and isinstance(st.value, ast.Constant))]
+    names = {}
+    comp = None
+    for st in body[:-1]:
+        if not (isinstance(st, ast.Assign) and len(st.targets) == 1 and isinstance(st.targets[0], ast.Name)):
+            raise Unsupported("create_local_noise_model: expected simple assignments")
+        if isinstance(st.value, ast.ListComp):
+            comp = (st.targets[0].id, st.value)
+        else:
+            names[st.targets[0].id] = st.value
+    ret = body[-1]
+    if comp is None or not (isinstance(ret, ast.Return) and ast.unparse(ret.value) == f"NoiseModel({comp[0]})"):
+        raise Unsupported("create_local_noise_model: expected `return NoiseModel(<the list comprehension>)`")
+    lc = comp[1]
+    g = lc.generators[0]
+    if (len(lc.generators) != 1 or ast.unparse(g.iter) != "noise_model.processes" or not isinstance(g.target, ast.Name) or g.is_async
+            or ast.unparse(lc.elt) != g.target.id or len(g.ifs) != 1):
+        raise Unsupported("create_local_noise_model: expected [p for p in noise_model.processes if <test>]")
+    pv = g.target.id
+
+    def site_list(n):
+        if isinstance(n, ast.Name) and n.id in names:
+            n = names[n.id]
+        if not isinstance(n, ast.List):
+            raise Unsupported(f"site list {ast.unparse(n)}")
+        out_ = []
+        for e_ in n.elts:
+            if isinstance(e_, ast.Name) and e_.id in ("first_site", "last_site"):
+                out_.append("a" if e_.id == "first_site" else "b")
+            else:
+                raise Unsupported(f"site {ast.unparse(e_)}")
+        return "[" + "; ".join(out_) + "]"
+
+    def sel(n):
+        if isinstance(n, ast.BoolOp):
+            parts = [sel(v) for v in n.values]
+            op = "orb" if isinstance(n.op, ast.Or) else "andb"
+            acc = parts[0]
+            for q in parts[1:]:
+                acc = f"({op} {acc} {q})"
+            return acc
+        if isinstance(n, ast.Compare) and len(n.ops) == 1 and isinstance(n.ops[0], ast.Eq) and ast.unparse(n.left) == f"{pv}['sites']":
+            return f"(list_eqb sites {site_list(n.comparators[0])})"
+        raise Unsupported(f"selection test {ast.unparse(n)}")
+
+    out.append(f"(* digital_tjm.py create_local_noise_model:  [p for p in noise_model.processes if {ast.unparse(g.ifs[0])}] *)\n"
+               f"Definition local_selected_src (a b : nat) (sites : list nat) : bool :=\n  {sel(g.ifs[0])}.\n")
     head = ("(* GENERATED on every run by harness/gen/translate_small.py from /repo's current source.  Do not edit. *)\n"
             "From Coq Require Import ZArith List Bool PrimFloat.\nImport ListNotations.\n"
-            "From Yaqs Require Import Base.Num Model.Verdict Model.Grid.\n\n")
+            "From Yaqs Require Import Base.Num Model.Verdict Model.Grid Model.NoiseAttrib.\n\n")
     new = head + "\n".join(out)
     if not OUT.exists() or OUT.read_text() != new:
         OUT.write_text(new)
